@@ -1,16 +1,34 @@
-use automerge::{AutoCommit, ReadDoc, TextEncoding, ObjType, ROOT};
-use automerge::transaction::Transactable;
-use automerge::marks::{Mark, ExpandMark};
+use amc::world::*;
+use amc::alphabet::*;
+use amc::util::guard;
+use amc::graph::Graph;
+use automerge::{AutoCommit, ReadDoc, TextEncoding, LoadOptions, PatchLog};
 fn main(){
-    for enc in [TextEncoding::UnicodeCodePoint, TextEncoding::Utf8CodeUnit, TextEncoding::Utf16CodeUnit] {
-        let mut d = AutoCommit::new_with_encoding(enc);
-        let t = d.put_object(ROOT, "t", ObjType::Text).unwrap();
-        d.splice_text(&t, 0, 0, "😀b").unwrap();
-        let len = d.length(&t);
-        d.mark(&t, Mark::new("bold".into(), true, len-1, len), ExpandMark::None).unwrap();
-        println!("{:?} len {} marks {:?}", enc, len, d.marks(&t).unwrap().iter().map(|m| (m.start, m.end)).collect::<Vec<_>>());
-        for i in 0..len { println!("   get_marks({}) = {:?}  get({}) = {:?}", i, d.get_marks(&t, i, None).unwrap().iter().map(|(k,_)| k.to_string()).collect::<Vec<_>>(), i, d.get(&t, i).unwrap().map(|v| format!("{:?}", v.0))); }
-        let h = d.get_heads();
-        for i in 0..len { println!("   get_marks_at({}) = {:?}", i, d.get_marks(&t, i, Some(&h)).unwrap().iter().map(|(k,_)| k.to_string()).collect::<Vec<_>>()); }
+    let enc = TextEncoding::UnicodeCodePoint;
+    let b = base("B2", enc);
+    let base_hashes: std::collections::BTreeSet<_> = b.get_changes(&[]).iter().map(|c| c.hash()).collect();
+    let mut d = b.fork().with_actor(actor(0x10));
+    edit_commit(&mut d, &Op::Put(Role::Root, Key::K("a"), Val::Int(1)));
+    let g = Graph::new(d.get_changes(&[]));
+    for h in g.head_sets_above(&base_hashes, 4) {
+        for op in theme("map") {
+            let r = guard(|| {
+                let mut ac = AutoCommit::load_with_options(&d.save(), LoadOptions::new().text_encoding(enc)).unwrap().with_actor(actor(0x10));
+                ac.isolate(&h);
+                let r = apply(&mut ac, op);
+                matches!(r, Applied::Done)
+            });
+            if let Err(p) = r { println!("isolate({:?}) {:?}: PANIC {} {}", amc::obs::hstr(&h), op, p.location, p.message); }
+            let r = guard(|| {
+                let mut x = d.clone();
+                let mut tx = x.transaction_at(PatchLog::inactive(), &h).unwrap();
+                let r = apply(&mut tx, op);
+                tx.rollback();
+                matches!(r, Applied::Done)
+            });
+            if let Err(p) = r { println!("transaction_at({:?}) {:?}: PANIC {} {}", amc::obs::hstr(&h), op, p.location, p.message); }
+        }
     }
+    println!("heads {:?}", amc::obs::hstr(&d.get_heads()));
+    for c in d.get_changes(&[]) { println!("{} {} seq {} deps {:?}", c.hash(), c.actor_id(), c.seq(), amc::obs::hstr(c.deps())); }
 }
